@@ -14,6 +14,8 @@ NoCancelFuture, ProxyFuture) and every path of the single resolution callback wi
              Stage 2 mirrors the delegate verbatim with no user call.
   R-DEFAULT  omitted functions act as identity (f_return for flat_map)
   R-PLUMB    f_map / f_flat_map / MapExecutor hand fn and error_fn to the future unchanged
+  R-EXC-SAME the copy helpers hand the exception object on unchanged: no with_traceback() / add_note() on it, no
+             store into its attributes (shared with C01)
 Not decided: `map g . map h = map (h . g)` as an extensional law.
 """
 from ..core import where_of, trace_of
